@@ -18,6 +18,29 @@ def gen_desc(rng):
     """One CAN-bound struct around the 64-bit limit; the excess / the variable-size field sits anywhere."""
     desc = {"enums": [{"name": "E", "vals": [("A", 0), ("B", rng.choice([1, 3, 200]))]},
                       {"name": "E5", "vals": [("A", 0), ("B", rng.choice([4, 5, 7]))]}], "structs": [], "impls": []}
+    if rng.random() < 0.15:
+        # the same nested struct reached more than once (two fields, or an array and a field), the total just beyond the frame: every
+        # occurrence counts, and everything else is plain unsigned so that nothing but the size can stand in the way of generation
+        inner_fields = [{"name": "x", "id": 0, "type": ("u", rng.choice([8, 16]))}, {"name": "y", "id": 1, "type": ("u", rng.choice([4, 8, 16]))}]
+        desc["structs"].append({"name": "In", "fields": inner_fields})
+        ib = sum(f["type"][1] for f in inner_fields)
+        shape = rng.choice(["two-fields", "array-and-field", "three-fields"])
+        occ = {"two-fields": 2, "array-and-field": 3, "three-fields": 3}[shape]
+        fields = [{"name": "n0", "id": 0, "type": ("struct", "In")}]
+        fields.append({"name": "n1", "id": 1, "type": ("arr", ("struct", "In"), 2) if shape == "array-and-field" else ("struct", "In")})
+        if shape == "three-fields":
+            fields.append({"name": "n2", "id": 2, "type": ("struct", "In")})
+        total = occ * ib
+        target = rng.randint(65, 64 + ib) if total < 65 else total
+        j = 3
+        while total < target:
+            w = min(target - total, rng.choice([1, 5, 8, 16]))
+            fields.append({"name": f"f{j}", "id": j, "type": ("u", w)}); total += w; j += 1
+        if rng.random() < 0.5:
+            rng.shuffle(fields)
+        desc["structs"].append({"name": "M", "fields": fields})
+        desc["impls"].append({"protocol": "can", "type": "M", "name": "M", "fields": [("id", rng.randrange(2048)), ("device", "ecu")], "signals": []})
+        return desc, target, False
     target = rng.choice([57, 60, 63, 64, 65, 66, 72, 80, 100, 128, 200, rng.randint(57, 200)])
     inner_fields = [{"name": "x", "id": 0, "type": ("u", rng.randint(1, 16))}, {"name": "y", "id": 1, "type": ("i", rng.randint(1, 16))}]
     desc["structs"].append({"name": "In", "fields": inner_fields})
@@ -75,7 +98,7 @@ def run(chk):
     broken = chk.proof_obligations(["Corr/Dbc.vo", "Corr/Pipeline.vo"])
     chk.coverage["rule"] = (
         "one CAN-bound struct with a total of 57..200 bits (the excess in any field, nested struct or array) and, in a third of the cases, a "
-        "variable-size field at any position (also nested / inside an array); run through fcp_dbc Generator.generate and through "
+        "variable-size field at any position (also nested / inside an array), or the same nested struct reached two or three times with a total of 65..64+inner bits; run through fcp_dbc Generator.generate and through "
         "GeneratorManager.generate('can_c') on a pre-populated directory; outcomes compared in Coq with DbcModel and Pipeline+Verifier; "
         "non-trivial = total > 56 bits; distinct = schema text")
     dcases, pcases, meta, fails = [], [], [], []
